@@ -86,7 +86,7 @@ func init() {
 	core.Register(&core.Check{
 		Spec: core.Spec{
 			Prop:        "C03",
-			Rule:        "Same scenario engine with replay emphasis (same vertex again, same transaction proposed again, same transaction re-wrapped by another sealer, duplicates in concurrent proposal blocks and concurrent deliveries). After every operation: no transaction hash in two vertices (live + checkpointed), no vertex both live and checkpointed, transaction index is a bijection onto the held transactions; at most one of several concurrent proposals of one transaction succeeds. One batch truncates a 1030-vertex ledger and re-offers checkpointed vertices and transactions (same vertex, same transaction proposed again, re-wrapped by another sealer), then runs 60 hostile operations. After every scenario the peer's own stream, extended by a second validly signed vertex of another sealer that wraps a transaction already in the stream (first or last in stream order), is loaded in to a fresh node: it must not hold the transaction twice and its index must point at the holder. Non-trivial = replay attempts and concurrent duplicate blocks; distinct by (replay kind, node count, checkpoint present, block size). Every fourth transaction of the random scenarios is dated 8-400 days in the past. A dedicated workload lets 2-5 copies of one gossiped vertex race each other (all pass the look-ups made before the lock) while its child is delivered as soon as the vertex is visible and one transaction is proposed twice at once.",
+			Rule:        "Same scenario engine with replay emphasis (same vertex again, same transaction proposed again, same transaction re-wrapped by another sealer, duplicates in concurrent proposal blocks and concurrent deliveries). After every operation: no transaction hash in two vertices (live + checkpointed), no vertex both live and checkpointed, transaction index is a bijection onto the held transactions; at most one of several concurrent proposals of one transaction succeeds. One batch truncates a 1030-vertex ledger and re-offers checkpointed vertices and transactions (same vertex, same transaction proposed again, re-wrapped by another sealer), then runs 60 hostile operations. After every scenario the peer's own stream, extended by a second validly signed vertex of another sealer that wraps a transaction already in the stream (first or last in stream order), is loaded in to a fresh node: it must not hold the transaction twice and its index must point at the holder. Non-trivial = replay attempts and concurrent duplicate blocks; distinct by (replay kind, node count, checkpoint present, block size). Every fourth transaction of the random scenarios is dated 8-400 days in the past. A dedicated workload lets 2-5 copies of one gossiped vertex race each other (all pass the look-ups made before the lock) while its child is delivered as soon as the vertex is visible and one transaction is proposed twice at once. Orphan replay race: a vertex of transaction T is parked, its parent arrives, and while the orphan buffer replays it (a slow second verification) another node's vertex of the same T is admitted; T must stay indexed to its holder and must not be sealed again.",
 			Assumptions: []string{ledgerAssume},
 			MinEvals:    300, MinNontriv: 10,
 		},
@@ -122,7 +122,7 @@ func init() {
 	core.Register(&core.Check{
 		Spec: core.Spec{
 			Prop:        "C10",
-			Rule:        "Same scenario engine with rule-breaking offers on every entry point: issuer = proposing node's wallet (local), issuer = sealer for gossiped vertices (also sealed by a wallet that is itself a node), issuer = genesis wallet, transactions with neither data nor spice, each also delivered before its parent and replayed from the orphan buffer. Each forbidden offer must return an error and leave neither vertex, parked entry nor index entry; every snapshot is scanned for self-sealed / genesis-issued / empty vertices; sync streams carrying a forbidden vertex on a tip or as a second root (zero parent hashes, zero left parent) must not yield a loaded node holding it. Non-trivial = forbidden offers; distinct by (rule, entry point, node role).",
+			Rule:        "Same scenario engine with rule-breaking offers on every entry point: issuer = proposing node's wallet (local), issuer = sealer for gossiped vertices (also sealed by a wallet that is itself a node), issuer = genesis wallet, transactions with neither data nor spice, each also delivered before its parent and replayed from the orphan buffer. Each forbidden offer must return an error and leave neither vertex, parked entry nor index entry; every snapshot is scanned for self-sealed / genesis-issued / empty vertices; sync streams carrying a forbidden vertex on a tip or as a second root (zero parent hashes, zero left parent) must not yield a loaded node holding it. Non-trivial = forbidden offers; distinct by (rule, entry point, node role). 'No data' is offered in both spellings (absent slice, empty slice).",
 			Assumptions: []string{ledgerAssume},
 			MinEvals:    300, MinNontriv: 8,
 		},
